@@ -27,6 +27,7 @@ import (
 	"go/constant"
 	"go/token"
 	"math/big"
+	"regexp"
 	"sort"
 	"strings"
 )
@@ -45,6 +46,7 @@ const (
 	kSlice // imperative mode only
 	kError // imperative mode only: Go `error`, Lean `Option String` (nil = none)
 	kNil   // the untyped nil
+	kShape // shape mode only: one shard of a `[][]byte` parameter, of which only the length is kept (Lean `Nat`)
 )
 
 type gtype struct {
@@ -65,6 +67,7 @@ var (
 	tUntyped = &gtype{kind: kUntyped}
 	tError   = &gtype{kind: kError}
 	tNil     = &gtype{kind: kNil}
+	tShape   = &gtype{kind: kShape}
 )
 
 func sameType(a, b *gtype) bool {
@@ -93,7 +96,7 @@ func sameType(a, b *gtype) bool {
 
 func (t *gtype) lean() string {
 	switch t.kind {
-	case kUint:
+	case kUint, kShape:
 		return "Nat"
 	case kInt:
 		return "Int"
@@ -134,6 +137,8 @@ func (t *gtype) String() string {
 		return "error"
 	case kNil:
 		return "nil"
+	case kShape:
+		return "shard (shape mode: only its length is known)"
 	}
 	return "tuple"
 }
@@ -190,8 +195,10 @@ func representable(v constant.Value, t *gtype) bool {
 
 type fspec struct {
 	file, recv, name, lean string
-	imp                    bool   // imperative mode (slices, loops, in-place updates): emitted as a `do` block
-	group                  string // output file: "" = Funcs.lean
+	imp                    bool     // imperative mode (slices, loops, in-place updates): emitted as a `do` block
+	group                  string   // output file: "" = Funcs.lean
+	shape                  bool     // shape mode (imperative mode only): a `[][]byte` parameter is the array of the shard lengths
+	upto                   []string // prefix mode (shape mode only): translate the top-level statements up to the last definition of these int locals and return their values
 }
 
 type tableInfo struct {
@@ -293,6 +300,11 @@ type fctx struct {
 	mutPar  map[string]bool // slice parameters written (directly or through a callee)
 	ntmp    int
 	isParam map[string]bool
+	lenArg  ast.Expr // shape mode: the argument of the len(..) being translated (the only place a shard may occur)
+	// shape mode, struct receiver: the scalar fields that are read become parameters `<recv>_<field>`
+	fldPrefix string
+	usedFlds  map[string]bool
+	declared  map[string]bool // imperative mode: every local declared
 }
 
 type ex struct {
@@ -318,7 +330,7 @@ var leanReserved = map[string]bool{"at": true, "from": true, "end": true, "then"
 	"def": true, "theorem": true, "open": true, "namespace": true, "section": true, "instance": true, "where": true,
 	"by": true, "macro": true, "syntax": true, "mut": true, "for": true, "return": true, "some": true, "none": true,
 	"true": true, "false": true, "Type": true, "Prop": true, "Sort": true, "u8": true, "u16": true, "u64": true,
-	"i64": true, "lz64": true, "iand64": true, "ior64": true, "ixor64": true, "gidx": true, "gset": true, "gset2": true, "decide": true, "Nat": true, "Int": true}
+	"i64": true, "shI64": true, "shIand64": true, "shIdx": true, "shFrom": true, "lz64": true, "iand64": true, "ior64": true, "ixor64": true, "gidx": true, "gset": true, "gset2": true, "decide": true, "Nat": true, "Int": true}
 
 func leanIdent(n string) string {
 	if leanReserved[n] {
@@ -579,6 +591,25 @@ func natOf(e ex) string {
 // ---------- expressions ----------
 
 func (fc *fctx) expr(e ast.Expr, sc *scope, hint *gtype) ex {
+	r := fc.expr1(e, sc, hint)
+	if r.t != nil && r.t.kind == kShape && stripParens(e) != fc.lenArg {
+		fc.tr.fail(e, "shape mode: a shard of a [][]byte parameter may only be measured with len(..); any other use "+
+			"(indexing or slicing its bytes, comparing, copying, storing, passing it on) is not supported")
+	}
+	return r
+}
+
+func stripParens(e ast.Expr) ast.Expr {
+	for {
+		p, ok := e.(*ast.ParenExpr)
+		if !ok {
+			return e
+		}
+		e = p.X
+	}
+}
+
+func (fc *fctx) expr1(e ast.Expr, sc *scope, hint *gtype) ex {
 	tr := fc.tr
 	if fc.imp {
 		if r, ok := fc.impExpr(e, sc, hint); ok {
@@ -600,7 +631,14 @@ func (fc *fctx) expr(e ast.Expr, sc *scope, hint *gtype) ex {
 		if id, ok := x.X.(*ast.Ident); ok && fc.recvName != "" && id.Name == fc.recvName {
 			if _, shadow := sc.lookup(id.Name); shadow == nil {
 				if t, ok := fc.recvFlds[x.Sel.Name]; ok {
+					if fc.fldPrefix != "" {
+						fc.usedFlds[x.Sel.Name] = true
+						return ex{s: fc.fldPrefix + x.Sel.Name, t: t}
+					}
 					return ex{s: leanIdent(x.Sel.Name), t: t}
+				}
+				if fc.fldPrefix != "" {
+					tr.fail(x, "shape mode: only the scalar fields of the receiver can be read (field %s)", x.Sel.Name)
 				}
 				tr.fail(x, "receiver has no field %s", x.Sel.Name)
 			}
@@ -1934,23 +1972,66 @@ func genFuncs(fset *token.FileSet, files map[string]*ast.File, order []string, t
 		seen[sp.lean] = true
 		tr.specs[key] = sp
 	}
+	skippedFuncs = nil
 	for _, sp := range list {
-		tr.translateFunc(sp.recv + "." + sp.name)
+		key := sp.recv + "." + sp.name
+		if !softFatal {
+			tr.translateFunc(key)
+			continue
+		}
+		// soft mode (ApiGo.lean): a function that is rejected is left out of the file (and reported, exit status 2);
+		// the functions that do not depend on it are still generated
+		func() {
+			defer func() {
+				if r := recover(); r != nil {
+					fe, ok := r.(fatalErr)
+					if !ok {
+						panic(r)
+					}
+					skippedFuncs = append(skippedFuncs, [2]string{sp.lean, string(fe)})
+				}
+			}()
+			tr.translateFunc(key)
+		}()
 	}
 	res := map[string]string{}
-	var fb, mb strings.Builder
-	fb.WriteString(funcsPrelude)
-	mb.WriteString(matrixPrelude)
+	preludes := map[string]string{"": funcsPrelude, "MatrixGo": matrixPrelude, "ApiGo": apiPrelude}
+	texts := map[string]*strings.Builder{}
 	for _, key := range tr.out {
-		if tr.specs[key].group == "" {
-			fb.WriteString(tr.funcs[key].text)
-		} else {
-			mb.WriteString(tr.funcs[key].text)
+		g := tr.specs[key].group
+		if texts[g] == nil {
+			pre, ok := preludes[g]
+			if !ok {
+				tr.fail(nil, "unknown output group %q", g)
+			}
+			texts[g] = &strings.Builder{}
+			texts[g].WriteString(pre)
 		}
+		texts[g].WriteString(tr.funcs[key].text)
 	}
-	fb.WriteString("end RSV.Gen\n")
-	mb.WriteString("end RSV.Gen\n")
-	res[""] = fb.String()
-	res["MatrixGo"] = mb.String()
+	if softFatal && texts["ApiGo"] == nil {
+		texts["ApiGo"] = &strings.Builder{}
+		texts["ApiGo"].WriteString(apiPrelude)
+	}
+	for _, sk := range skippedFuncs {
+		fmt.Fprintf(texts["ApiGo"], "-- NOT TRANSLATED: %s\n\n", sk[0])
+	}
+	for g, b := range texts {
+		b.WriteString("end RSV.Gen\n")
+		res[g] = b.String()
+	}
+	if t, ok := res["ApiGo"]; ok {
+		// ApiGo.lean imports nothing: its own copy of the int64 wrap, none of the other helpers of Funcs.lean / MatrixGo.lean
+		body := strings.ReplaceAll(strings.ReplaceAll(strings.TrimPrefix(t, apiPrelude), "(i64 (", "(shI64 ("), "(iand64 ", "(shIand64 ")
+		if m := foreignHelper.FindStringSubmatch(body); m != nil {
+			tr.fail(nil, "ApiGo.lean (which imports nothing) would need the helper %s of Funcs.lean / MatrixGo.lean", m[2])
+		}
+		res["ApiGo"] = apiPrelude + body
+	}
 	return res
 }
+
+// skippedFuncs: soft mode, the functions left out of the last genFuncs run (Lean name, reason)
+var skippedFuncs [][2]string
+
+var foreignHelper = regexp.MustCompile(`(^|[^A-Za-z0-9_'.])(u8|u16|u64|i64|iand64|ior64|ixor64|lz64|gidx|gset|gset2)($|[^A-Za-z0-9_'])`)
